@@ -8,6 +8,7 @@ import fnmatch
 import hashlib
 import json
 import os
+import random
 import re
 import shutil
 
@@ -49,13 +50,13 @@ class Project:
         self.stamp = BASE_T
         self.write()
 
-    def set_flag(self, key, value, rng=None):
+    def set_flag(self, key, value, rng=None, via_cli=None):
         """switch a boolean setting on or off — half of the time the way a user does it, with `gwf config set KEY yes|no|
         true|false` (whatever gwf then stores is kept verbatim), otherwise by writing the JSON boolean"""
         self.intent[key] = bool(value)
-        if rng is not None and rng.random() < 0.5:
+        if via_cli if via_cli is not None else (rng is not None and rng.random() < 0.5):
             self.write()
-            spelling = rng.choice(["yes", "true"] if value else ["no", "false"])
+            spelling = (rng or random).choice(["yes", "true"] if value else ["no", "false"])
             code, out, err = self.gwf(["config", "set", key, spelling])
             if code != 0:
                 raise RuntimeError("gwf config set %s %s failed: %s" % (key, spelling, err[-200:]))
